@@ -194,3 +194,28 @@ _date_td_contract("pendulum.date.Date._add_timedelta", "delta", 1)
 _date_td_contract("pendulum.date.Date._subtract_timedelta", "delta", -1)
 _date_td_contract("pendulum.date.Date.__add__", "other", 1)
 _date_td_contract("pendulum.date.Date.__sub__", "other", -1)
+
+
+# ---- Date + Interval: the interval's calendar components (C06) ---------------------------------------------
+def _iv_date_units(iv, sign=1):
+    from pyvc.sym import absv
+
+    dd = iv._delta.days
+    sg = lambda ref, x: If(lt(ref, 0), sym.neg(x), x)
+    weeks = sg(dd, sym.fdiv(absv(dd), 7))
+    rdays = sg(iv._days, sym.fmod(absv(dd), 7))
+    return dict(years=sym.mul(iv._delta.years, sign), months=sym.mul(iv._delta.months, sign), weeks=sym.mul(weeks, sign), days=sym.mul(rdays, sign))
+
+
+def _add_interval_case(qualname, pname, sign):
+    from pyvc.contract import REGISTRY, Case
+    from pendulum.interval import Interval
+
+    class on_interval(_date_delegation(lambda **a: _iv_date_units(a[pname], sign))):
+        applies = staticmethod(lambda **a: isinstance(a[pname], Obj) and a[pname].cls is Interval)
+
+    REGISTRY[qualname].cases.append(Case(qualname, "interval", on_interval, None))
+
+
+_add_interval_case("pendulum.date.Date.__add__", "other", 1)
+_add_interval_case("pendulum.date.Date._add_timedelta", "delta", 1)
